@@ -53,6 +53,10 @@ def run_store(ctx, pid, deletes):
     for plan in (1, 2, 3, 4, 5):
         runs.append(("plan%d" % plan, dict(spec="GSpecSim", T=4, depth=16, deletes=deletes, plan=plan),
                      "num=%d" % ((5 if not thorough else 60) * scale), 2 if not thorough else 3, False))
+    # one session of many one-sample commits, replayed with a 1-byte data type and a tiny file cap:
+    # the index channel rolls over at every commit, ONE data domain spans 4-5 contiguous index domains
+    runs.append(("dense", dict(spec="GSpecSim", T=4, depth=12, deletes=deletes, plan=6, maxlen=1, chansets='{{"I","D","V"}}'),
+                 "num=%d" % ((2 if not thorough else 10) * scale), 1, False))
     if not deletes:
         runs.append(("early", dict(spec="GSpecSim", T=4, depth=12, deletes=False, early=True), "num=%d" % max(10, n_sim // 3), 2, True))
     for tag, kw, sim, nconc, early in runs:
@@ -73,7 +77,11 @@ def run_store(ctx, pid, deletes):
         if n == 0:
             raise vlib.Inconclusive("no histories generated (%s)" % tag)
         samples += smp[:1]
-        summ, bad = C.replay_store(ctx, hp, T, "rp_" + tag, nconc=nconc, full=("tail" if tag == "sess" else True))
+        forced = None
+        if tag == "dense":
+            forced = {"tsmap": ctx.seed % 3, "dtype": 2, "vtype": ctx.seed % 3, "filecap": 5, "persist": ctx.seed % 2, "gcthresh": 0,
+                      "iter": 0, "noempty": False}
+        summ, bad = C.replay_store(ctx, hp, T, "rp_" + tag, nconc=nconc, conc=forced, full=("tail" if tag == "sess" else True))
         total += summ["replays"]
         for k, v in summ.items():
             if isinstance(v, int) and k not in ("summary",):
